@@ -1533,3 +1533,36 @@ Proof.
   - destruct IndexStoreExamples.ex_equiv as (_ & H1 & H2 & _ & H3). repeat (split; [assumption|]). assumption.
 Qed.
 Print Assumptions C20_index_example.
+
+(* STOREREF, continued: "without OutOfMemory" can be read off the script.  One thread, nothing parked with other
+   threads, at most as many additions as slots without node: the `Arc` client never meets OutOfMemory; hence for
+   a NEW manager (any capacity, chunk size, number of terminals) and any script with at most `capacity`
+   additions the index store, the slab (any page size) and the reference store return the same results *)
+From OxiVerif Require Mgr.IndexStoreCap.
+
+Theorem C20_index_no_oom : forall c t ops s,
+  IndexStoreProofs.IInv c s /\ IndexStore.i_own s = [] /\ (t < length (Alloc.th (IndexStore.i_al s)))%nat ->
+  AllocProofs.others_idle_p c (IndexStore.i_al s) t ->
+  (Alloc.nlive c (IndexStore.i_al s) + IndexStoreCap.nadds ops <= N.to_nat (Alloc.cap c))%nat ->
+  ~ In IndexStore.XOom (IndexStore.idx_exec c t s ops).
+Proof. exact IndexStoreCap.idx_exec_no_oom. Qed.
+Print Assumptions C20_index_no_oom.
+
+Theorem C20_stores_equivalent_new : forall c spp ops,
+  (1 <= Alloc.chunk c)%N -> (1 <= Alloc.term c)%N -> (1 <= spp)%nat ->
+  forallb ArcSlabRefine.item_op ops = true ->
+  (length (filter (fun o => match o with ArcSlab.OAdd _ _ => true | _ => false end) ops) <= N.to_nat (Alloc.cap c))%nat ->
+  IndexStore.idx_exec c 0 (IndexStore.iinit c 1) (map ArcSlabRefine.aop_of ops) =
+    map IndexStoreEquiv.lift (ArcSlabRefine.arc_exec spp (ArcSlab.init spp) ops) /\
+  IndexStore.idx_exec c 0 (IndexStore.iinit c 1) (map ArcSlabRefine.aop_of ops) =
+    map IndexStoreEquiv.lift (ArcSlabRefine.ref_exec ArcSlabRefine.rinit (map ArcSlabRefine.aop_of ops)).
+Proof.
+  intros c spp ops Hc Ht Hs Hi Hn. apply IndexStoreCap.stores_equivalent_new; auto.
+  assert (E : forall l, forallb ArcSlabRefine.item_op l = true ->
+            IndexStoreCap.nadds (map ArcSlabRefine.aop_of l) =
+            length (filter (fun o => match o with ArcSlab.OAdd _ _ => true | _ => false end) l)).
+  { induction l as [|o l IH]; [reflexivity|]. cbn [forallb]. intros H. apply andb_prop in H. destruct H as [Ho Hl].
+    destruct o; try discriminate Ho; cbn; rewrite (IH Hl); reflexivity. }
+  rewrite (E ops Hi). exact Hn.
+Qed.
+Print Assumptions C20_stores_equivalent_new.
